@@ -6,7 +6,9 @@ Bounded-exhaustive enumeration, exhaustive in the VALUE dimension (executor: har
      255-channel stream to every 13th plus +-3 around 0, 1 and 2 frames), on encoder-made streams with
      1, 2, 3, 6 and 255 channels, a chain whose links have 2, 1 and 3 channels, and three "loud" streams (valid streams whose
      residue codebooks are declared 2^1, 2^17, 2^31 times larger, so that the decoded PCM is far outside +-1);
-     non-positive word sizes.  Every (format, length) case of the 1/2/3/6-channel streams is also run with half-rate
+     non-positive word sizes; negative buffer lengths {-1,-2,-4,-4096,INT_MIN,INT_MIN+1} (probed right after open and
+     between ordinary reads, i.e. with decoded data pending; a guarded real buffer sits behind the pointer): error or 0 at
+     end of stream, never a positive count, nothing written, position unchanged, following reads still equal the twin.  Every (format, length) case of the 1/2/3/6-channel streams is also run with half-rate
      decoding switched on (ov_halfrate(vf,1) before the first read on both handles): bytes = conversion of the half-rate
      float decode, whole frames, ov_pcm_tell advances by exactly 2 per frame returned.
  (b) value enumeration through the real packing loops: the filter callback of ov_read_filter overwrites the decoded
@@ -79,6 +81,8 @@ def streams(tier):
     return S
 
 
+# negative buffer lengths (a caller's 'size - used' gone wrong): must be refused like any buffer too small for one frame
+NEGLENS = [-1, -2, -4, -4096, -2147483648, -2147483647]
 HALF = ['c17_m1', 'c17_s2', 'c17_t3', 'c17_x6']      # 1, 2, 3, 6 channels: every (format, length) case is also run at half rate
 TWIN = ['c17_m1', 'c17_s2', 'c17_t3', 'c17_x6', 'c17_y255', 'c17_chain', 'c17_loud1', 'c17_loud17', 'c17_loud31']
 
@@ -137,7 +141,7 @@ def make_cases(tier, S):
             if tier == 'quick' and ch > 16:
                 # 255 channels, quick: all lengths around 0, 1 frame and 2 frames, every 13th in between (thorough: all of them)
                 lens = sorted(set(l for l in lens if l % 13 == 0 or min(abs(l - b) for b in (0, frame, 2 * frame)) <= 3))
-            for ln in lens + [4096, 65536]:
+            for ln in lens + [4096, 65536] + NEGLENS:
                 pre.append(('T', name, f, ln))
                 if name in HALF:
                     # the same case with half-rate decoding on: bytes = conversion of the half-rate float decode, position advances 2 per frame
@@ -229,6 +233,10 @@ def evaluate(chk, cases, res, S, agg):
                 agg['half_combos'].add((c[2], int(d['maxch'])))
             if kind == 'G':
                 agg['half_filter_calls'] += int(d.get('calls', 0))
+        if kind == 'T' and c[3] < 0 and status in ('ok', 'bad'):
+            agg['negprobes'] += int(d.get('negprobes', 0))
+            if int(d.get('negprobes', 0)) > 1 and int(d.get('reads', 0)) > 0:
+                agg['neg_combos'].add((c[2], c[1], is_half(c)))
         if kind in 'TW':
             agg['rej' if kind == 'T' else 'wrej'] += int(d.get('rej', 0))
             agg['einval'] += int(d.get('einval', 0))
@@ -276,7 +284,7 @@ def run(tier):
     S = streams(tier)
     pre, val = make_cases(tier, S)
     agg = {'cls': [[0] * len(CLS) for _ in range(8)], 'vjudged': [0] * 8, 'vnan': [0] * 8, 'vslices': [0] * 8, 'vcover': [0] * 8, 'gjudged': 0, 'tjudged': 0, 'tbig': 0,
-           'rej': 0, 'wrej': 0, 'einval': 0, 'reads': 0, 'multi': 0, 'maxch': 0, 'chain_reads': 0, 'half_reads': 0, 'half_combos': set(), 'half_filter_calls': 0, 'skipped': [],
+           'rej': 0, 'wrej': 0, 'einval': 0, 'reads': 0, 'multi': 0, 'maxch': 0, 'chain_reads': 0, 'half_reads': 0, 'half_combos': set(), 'half_filter_calls': 0, 'negprobes': 0, 'neg_combos': set(), 'skipped': [],
            'k1': [{'n': 0, 'nenv': 0, 'contig': [], 'env': [], 'case': None} for _ in range(8)], 'k1twin': {}, 'other': []}
     budget = 150 if tier == 'quick' else 22 * 60
     deadline = int(t0 + budget)
@@ -356,11 +364,13 @@ def run(tier):
         'twin_reads': agg['reads'], 'small_buffer_refusals': agg['rej'], 'nonpositive_word_refusals': agg['wrej'], 'refusals_with_OV_EINVAL': agg['einval'],
         'multichannel_multiframe_reads': agg['multi'], 'max_channels_read': agg['maxch'], 'reads_over_channel_change': agg['chain_reads'],
         'halfrate_twin_reads': agg['half_reads'], 'halfrate_format_x_channels_combos': len(agg['half_combos']), 'halfrate_filter_calls': agg['half_filter_calls'],
+        'negative_length_probes': agg['negprobes'], 'negative_length_format_x_stream_x_rate_combos': len(agg['neg_combos']),
         'cases_skipped_by_deadline': len(agg['skipped']),
         'ftoi_overflow_ranges': lines,
     })
     chk.assumptions += [
         'NaN samples are not judged (not producible by a valid stream); +-inf must go to the rail of their sign',
+        'a negative buffer length is a buffer too small for one frame: an error (HEAD: OV_EINVAL) or 0 at end of stream, never a positive count',
         'either tie rule is accepted (|out - x*scale| <= 0.5 before clipping)',
         'word sizes other than 1 and 2, and flag values other than 0/1, are outside the documented interface and not judged',
         'a too-small buffer / non-positive word at end of stream may answer 0 (EOF) instead of a negative code; in every case nothing may be written',
@@ -375,6 +385,8 @@ def run(tier):
     chk.guard(agg['multi'] > 0 and agg['maxch'] == 255, 'multi-frame reads on >=3 channels were compared and the 255-channel stream was read')
     chk.guard(len(agg['half_combos']) == 32 and agg['half_filter_calls'] > 0,
               'half-rate decoding: all 8 formats x {1,2,3,6} channels were read with ov_halfrate on (position must advance 2 per frame), and the filter path ran at half rate')
+    chk.guard(len(agg['neg_combos']) == 8 * (len(TWIN) + len(HALF)),
+              'negative buffer lengths were probed right after open and between ordinary reads for all 8 formats on every twin stream (1..255 channels), full and half rate')
     chk.guard(agg['chain_reads'] > 0, 'a read-through crossed a change of channel count')
     chk.guard(agg['rej'] > 0 and agg['wrej'] > 0, 'small-buffer and non-positive-word refusals were observed')
     chk.guard(agg['tbig'] > 0, 'the twin check met samples of a valid stream whose scaled value is beyond the int range')
